@@ -19,7 +19,8 @@ Inductive ckind :=
 | KCloseNotify      (* unprotected close_notify alert, fresh number *)
 | KClearApp         (* unprotected application_data record, fresh number *)
 | KClearCcs         (* unprotected change_cipher_spec record with the valid body 01, fresh number *)
-| KCcsEpoch.        (* change_cipher_spec-typed record claiming a protected epoch, any body, fresh number *)
+| KCcsEpoch         (* change_cipher_spec-typed record claiming a protected epoch, any body, fresh number *)
+| KClearRrc.        (* unprotected return_routability_check record that decodes (known finding: not dropped) *)
 
 (* observation: (error surfaced: handshake abort or Read error, alert sent, connection closed, payload delivered) *)
 Definition cobs := (bool * bool * bool * bool)%type.
@@ -47,6 +48,7 @@ Definition dgram_of (k : ckind) : dgram :=
   | KCloseNotify => DRecs [RWire (mk0 21 9000 (CAlert 1 0))]
   | KClearApp => DRecs [RWire (mk0 23 9000 (CApp [1; 2; 3]))]
   | KClearCcs => DRecs [RWire (mk0 20 9000 CCCS)]
+  | KClearRrc => DRecs [RWire (mk0 27 9000 CRrc)]
   | KCcsEpoch => DRecs [RWire {| w_ctype := 20; w_epoch := 1; w_seq := 9000; w_cid := []; w_auth := None; w_clear := CCCS |}]
   end.
 
